@@ -99,8 +99,9 @@ def _install_stub():
             o.__dict__.pop('_check_native', None)
 
 
-ENTRIES = ['setitem', 'insert', 'setdefault', 'update', 'ctor', 'value', 'setdefault_value', 'update_value', 'lookup']
-SET_ENTRIES = ['add', 'insert', 'update', 'ctor', 'ior', 'lookup']
+ENTRIES = ['setitem', 'insert', 'setdefault', 'update', 'ctor', 'value', 'setdefault_value', 'update_value', 'lookup',
+           'update_container', 'ctor_container', 'update_container_value']
+SET_ENTRIES = ['add', 'insert', 'update', 'ctor', 'ior', 'lookup', 'update_container', 'ctor_container']
 
 
 def py_int(P, ks, a):
@@ -129,7 +130,7 @@ def py_int(P, ks, a):
                 fail('the conversion object rejected a representable integer', {'harness': 'py_int', 'family': fam, 'entry': 'conv'})
     t = cl[kind](base) if is_set else cl[kind]([(k, 1) for k in base])
     ctx = {'harness': 'py_int', 'family': fam, 'kind': kind, 'entry': e, 'pre': pre}
-    as_value = e in ('value', 'setdefault_value', 'update_value')
+    as_value = e in ('value', 'setdefault_value', 'update_value', 'update_container_value')
     lo, hi = (vlo, vhi) if as_value else (klo, khi)
     representable = lo <= n <= hi
     exc = None
@@ -154,6 +155,20 @@ def py_int(P, ks, a):
             t.setdefault(7, n)
         elif e == 'update_value':
             t.update({7: n})
+        elif e in ('update_container', 'ctor_container', 'update_container_value'):
+            # the data arrives inside a container of a WIDER family (object keys/values hold any integer)
+            oo = shapes.classes('OO', 'py')
+            if is_set:
+                src = oo['TreeSet' if pre else 'Set']([n])
+            elif e == 'update_container_value':
+                src = oo['Bucket']([(7, n)])
+            else:
+                src = oo['BTree' if pre else 'Bucket']([(n, 1)])
+            if e == 'ctor_container':
+                t = cl[kind](src)
+                base = []
+            else:
+                t.update(src)
         else:
             found = (n in t)
             got = 'absent' if is_set else t.get(n, 'absent')
@@ -248,8 +263,9 @@ def accepts(ch, x):
     raise KeyError(ch)
 
 
-N_ENTRIES = ['setitem', 'setdefault', 'update', 'ctor', 'insert', 'value', 'setdefault_value', 'lookup', 'setstate', 'setstate_value', 'overwrite']
-NS_ENTRIES = ['add', 'update', 'ctor', 'insert', 'lookup', 'setstate']
+N_ENTRIES = ['setitem', 'setdefault', 'update', 'ctor', 'insert', 'value', 'setdefault_value', 'lookup', 'setstate', 'setstate_value', 'overwrite',
+             'update_container', 'update_container_value']
+NS_ENTRIES = ['add', 'update', 'ctor', 'insert', 'lookup', 'setstate', 'update_container']
 
 
 def good(ch, i=0):
@@ -267,7 +283,7 @@ def native(P, ks, a):
     with common.untraced():
         cl = shapes.classes(fam, impl)
         kch, vch = ('f', 's') if fam == 'fs' else (fam[0], fam[1])
-        as_value = e in ('value', 'setdefault_value', 'setstate_value', 'overwrite')
+        as_value = e in ('value', 'setdefault_value', 'setstate_value', 'overwrite', 'update_container_value')
         ch = vch if as_value else kch
         ok, back = accepts(ch, x)
         if ch == 'O' and (as_value or e == 'setstate'):
@@ -298,6 +314,14 @@ def native(P, ks, a):
                 (t.insert(x) if is_set else (t.insert(x, gv) if kind == 'BTree' else t.update({x: gv})))
             elif e == 'add':
                 t.add(x)
+            elif e in ('update_container', 'update_container_value'):
+                # the same datum inside a container of the object family (compiled and pure-Python in turn)
+                oo = shapes.classes('OO', 'py' if (n0 % 2) else 'c')
+                try:
+                    src = oo['Set']([x]) if is_set else (oo['Bucket']([(k2, x)]) if as_value else oo['BTree']([(x, gv)]))
+                except TypeError:
+                    return              # not even an object key (default comparison)
+                t.update(src)
             elif e == 'value':
                 t[k2] = x
             elif e == 'setdefault_value':
